@@ -9,6 +9,21 @@ TB = ("rustc (nightly 1.97) parsing, macro expansion, type checking and MIR cons
       "hand-written oracle tables under spec/ (each entry carries its reason)")
 
 CLAIMS = {
+    "C06": {
+        "technique": "static analysis: symbolic reading of all 1121 instruction-emitting Builder methods joined with the loader's abstractly interpreted automaton and the grammar table",
+        "text": "For every instruction-emitting Builder method: the container it emits into equals the container the loader files that opcode into in the corresponding state (R-SECT); "
+                "the instruction it builds matches the opcode's grammar row operand for operand, with the parser's variants, quantifier forms and parameters in signature order (R-SLOT); "
+                "names/docs tie methods to opcodes; version packing functions are inverse. Equality for all argument values is not computed.",
+        "design_ref": "DESIGN.md 3/C06", "note": TB + "; relies on C05 (loader automaton) and C02 (codec) holding",
+    },
+    "C13": {
+        "technique": "static analysis: who-may-write census of Builder.next_id from MIR, id-source rule over every emitting method, normalised shape of the dedup branch",
+        "text": "Only id() writes next_id (MIR field-write census), id() returns the pre-increment value, new/new_from_module/module() seed and store it; every emitted result id is "
+                "the explicit id or self.id(); each of the 33 implicit-type methods is the explicit/found/fresh three-way branch; dedup_insert_type and is_type_identical by shape. "
+                "Counter wrap-around and colliding caller-chosen ids are outside the claim.",
+        "design_ref": "DESIGN.md 3/C13", "note": TB,
+    },
+
     "C02": {
         "technique": "static analysis: table agreement between parser arms, decoder methods and assembler arms (syntax-tree extraction), interval interpretation of from_u32, pinned snapshot",
         "text": "Decides the codec pairing for all 70 operand kinds, 64 Operand variants, every typed decoder method and every enumerant/bit parameter list: "
